@@ -72,19 +72,26 @@ func GetTimeFromTicks(intervalStart uint64, intervalsPerDay, intervalTicks uint3
 	)
 
 	fractionalSeconds := float64(intervalTicks) / (float64(intervalsPerDay) * ticksPerIntervalDivSecsPerDay)
-	subseconds := nanosecond * (fractionalSeconds - math.Floor(fractionalSeconds))
+	wholeSeconds := math.Floor(fractionalSeconds)
+	subseconds := nanosecond * (fractionalSeconds - wholeSeconds)
 	if subseconds >= nanosecond {
 		subseconds -= nanosecond
-		fractionalSeconds++
+		wholeSeconds++
 	}
 
-	// in order to keep compatibility with the old rewriteBuffer implemented in C with some round error,
-	// fractionalSeconds should be rounded here.
-	sec = intervalStart + uint64(math.Round(fractionalSeconds*subnanosecond)/subnanosecond)
+	// The second is the whole part of fractionalSeconds. (Rounding fractionalSeconds to 8 decimals
+	// here returned the *next* second whenever the fraction was >= 0.999999995, while the
+	// nanoseconds below stayed 0.99999999x: timestamps came back one second late.)
+	sec = intervalStart + uint64(wholeSeconds)
 	// round the subseconds after the decimal point to minimize the cancellation error of subseconds
 	// round( subseconds ) = (int32_t)(subseconds + 0.5)
 	const round = 0.5
 	nanosec = uint32(subseconds + round)
+	// rounding up to a full second carries into sec
+	if nanosec >= uint32(nanosecond) {
+		nanosec -= uint32(nanosecond)
+		sec++
+	}
 
 	return sec, nanosec
 }
